@@ -115,6 +115,11 @@ def check_model(base, sc, acc, hist, order):
                 pos = tr['channel_positions']
                 shanks = tr['channel_shanks'] if tr['channel_shanks'] is not None else np.zeros(nc)
                 coincide = list(sc) == st
+                wmi = None
+                if tr['wm'] is not None and np.all(np.isfinite(tr['wm'])):
+                    wmi = tr['wmi_file'] if tr.get('wmi_file') is not None else np.linalg.inv(tr['wm'])
+                elif tr['wm'] is None:
+                    wmi = np.eye(nc)
                 mx = max(sc)
                 if coincide:
                     if dict(m.merge_map) != {}:
@@ -144,7 +149,8 @@ def check_model(base, sc, acc, hist, order):
                         for c in range(mx + 1):
                             o = origins[c]
                             if len(o) == 1:
-                                if not np.allclose(data[c], T[o[0]], rtol=1e-6, atol=1e-6):
+                                # "carries that template's waveform unchanged": exactly
+                                if not np.array_equal(np.asarray(data[c], dtype=np.float64), T[o[0]]):
                                     bad.append(('sparse_clusters', 'single-origin-not-template',
                                                 describe(T[o[0]]), describe(data[c])))
                             elif len(o) >= 2:
@@ -182,6 +188,32 @@ def check_model(base, sc, acc, hist, order):
                                             bad.append(('get_cluster_mean_waveforms', 'value',
                                                         'weighted mean on the dominant channels', 'differs'))
                                         break
+                                if ok_any and len(doms) == 1 and wmi is not None:
+                                    # the accessor in physical units: the same definition on the
+                                    # unwhitened templates (whose largest channel may be another one)
+                                    U = {t: T[t] @ wmi for t in o}
+                                    uch = {t: template_channels(U[t], pos, shanks, ncl)[0] for t in o}
+                                    Du = uch[doms[0]]
+                                    expu = np.zeros((T.shape[1], len(Du)))
+                                    for t in o:
+                                        for j, ch in enumerate(Du):
+                                            if ch in uch[t]:
+                                                expu[:, j] += counts[t] * U[t][:, ch]
+                                    expu /= tot
+                                    try:
+                                        mw = m.get_cluster_mean_waveforms(c, unwhiten=True)
+                                        got_ch = [int(x) for x in mw.channel_ids]
+                                        oku = sorted(got_ch) == sorted(Du)
+                                        if oku:
+                                            idx = [Du.index(x) for x in got_ch]
+                                            oku = np.allclose(mw.mean_waveforms, expu[:, idx],
+                                                              rtol=1e-5, atol=1e-6)
+                                        seen = {'channels': got_ch}
+                                    except Exception as e:
+                                        oku, seen = False, repr(e)
+                                    if not oku:
+                                        bad.append(('get_cluster_mean_waveforms', 'unwhitened',
+                                                    {'channels': Du, 'mean': describe(expu)}, seen))
                                 if not ok_any:
                                     bad.append(('sparse_clusters', 'weighted-mean%s' % (
                                         ',tie' if len(doms) > 1 else ''),
@@ -242,12 +274,15 @@ def make_bases(ctx):
     geos = [('line', 4), ('col14', 14)]
     for a in list(assigns) + list(unused_top):
         for gi, (geo, nc) in enumerate(geos):
-            for wh in ('identity', 'mixing'):
-                if not ctx.thorough and (gi + (wh == 'mixing')) % 2 != (sum(a) % 2):
+            for wh in ('identity', 'mixing', 'gains'):
+                if not ctx.thorough and (gi + (wh != 'identity')) % 2 != (sum(a) % 2):
                     continue   # quick: geometry and whitening alternate over the bases
+                if wh == 'gains' and geo != 'col14':
+                    continue   # gains matter where the channel set can change (> 12 channels)
                 spec = {'n_spikes': ns, 'n_templates': nt, 'n_channels': nc, 'geometry': geo,
                         'spike_templates': list(a), 'whitening': wh, 'features': 'absent',
-                        'tfeatures': 'absent', 'raw': False, 'fill': ctx.seed, 'nsw': 4}
+                        'tfeatures': 'absent', 'raw': False, 'fill': ctx.seed, 'nsw': 4,
+                        'template_dtype': 'float64' if sum(a) % 3 == 0 else 'float32'}
                 _BASES.append({'name': '%s/%s/%s' % (''.join(map(str, a)), geo, wh), 'spec': spec,
                                'st': list(a)})
 
